@@ -169,3 +169,235 @@ SNIPPETS_C = {
     "const_volatile": "int f(const int a, volatile int b, const volatile int *p) { const int c = a + b; volatile int d = c; return d + *p; }\n",
     "void_pointer": "int f(void *v, int n) { char *c = (char *)v; int *i = v; return c[n] + i[0]; }\n",
 }
+
+
+# ---------------------------------------------------------------------------------------------------------
+# One minimal translation unit per statement / expression / declaration KIND that clang's AST distinguishes and that
+# is reachable without headers (name = the clang node kind it is aimed at).  Each is analysed in its own file.
+KINDS_CPP = {
+    # ---- statements
+    "NullStmt": "void f() { ; }\n",
+    "CompoundStmt_nested": "int f(int a) { { { a++; } } return a; }\n",
+    "LabelStmt_unused": "int f(int a) {\nl:\n  return a; }\n",
+    "AttributedStmt_fallthrough": "int f(int a) { switch (a) { case 1: a++; [[fallthrough]]; case 2: a--; break; default: break; } return a; }\n",
+    "IfStmt_else_chain": "int f(int a) { if (a == 1) return 1; else if (a == 2) return 2; else return 3; }\n",
+    "IfStmt_init": "int g(); int f() { if (int a = g(); a > 1) return a; return 0; }\n",
+    "IfStmt_constexpr": "template<int N> int f() { if constexpr (N > 1) return N; else return 0; }\nint h() { return f<2>() + f<0>(); }\n",
+    "SwitchStmt_fallthrough_default_first": "int f(int a) { int r = 0; switch (a) { default: r = 9; case 0: r++; case 1: r += 2; break; case 2: { r = 5; } } return r; }\n",
+    "SwitchStmt_empty": "int f(int a) { switch (a) { } switch (a) default: a++; return a; }\n",
+    "SwitchStmt_decl_cond": "int g(); int f() { switch (int k = g()) { case 1: return k; default: return 0; } }\n",
+    "WhileStmt_decl_cond": "int g(); int f() { int s = 0; while (int k = g()) { s += k; } return s; }\n",
+    "WhileStmt_empty_body": "int f(int a) { while (a-- > 0); return a; }\n",
+    "DoStmt_single": "int f(int a) { do a--; while (a > 0); return a; }\n",
+    "ForStmt_empty_parts": "int f(int a) { for (;;) { if (a++ > 3) break; } for (; a < 9;) a++; for (int i = 0, j = 1; i < j; i++, j--) a += i; return a; }\n",
+    "CXXForRangeStmt_array_ref": "int f() { int v[3] = {1, 2, 3}; for (int &e : v) e++; int s = 0; for (const auto &e : v) s += e; return s; }\n",
+    "CXXForRangeStmt_init_list_struct": "struct R { int a[2]; int *begin() { return a; } int *end() { return a + 2; } };\nint f(R r) { int s = 0; for (int e : r) s += e; return s; }\n",
+    "GotoStmt_backward": "int f(int a) {\nagain:\n  if (a++ < 3) goto again; return a; }\n",
+    "IndirectGotoStmt": "int f(int a) { static void *t[] = {&&l0, &&l1}; goto *t[a & 1];\nl0:\n  return 0;\nl1:\n  return 1; }\n",
+    "ContinueStmt_while": "int f(int a) { int s = 0; while (a-- > 0) { if (a & 1) continue; s += a; } return s; }\n",
+    "BreakStmt_nested": "int f(int a) { for (int i = 0; i < 3; i++) { for (int j = 0; j < 3; j++) { if (j == a) break; } if (i == a) break; } return a; }\n",
+    "ReturnStmt_void": "void f(int a) { if (a) return; a++; return; }\n",
+    "ReturnStmt_init_list": "struct S { int a; int b; }; S f() { return {1, 2}; }\n",
+    "DeclStmt_multi": "int f() { int a = 1, *p = &a, b[2] = {1, 2}, &r = a; return a + *p + b[1] + r; }\n",
+    "DeclStmt_local_types": "int f() { struct L { int m; }; enum E { A, B }; typedef int I; using J = long; L l = {1}; I i = B; J j = 2; return l.m + i + (int)j; }\n",
+    "DeclStmt_local_function": "int f() { int g(int); extern int ev; return g(ev); }\n",
+    "GCCAsmStmt_operands": "int f(int a) { int r; __asm__ volatile(\"mov %1, %0\" : \"=r\"(r) : \"r\"(a) : \"memory\"); return r; }\n",
+    "GCCAsmStmt_goto": "int f(int a) { __asm__ goto(\"\" : : \"r\"(a) : : out); return 0;\nout:\n  return 1; }\n",
+    "CXXTryStmt_typed": "struct E { int c; };\nint g(); int f() { try { return g(); } catch (const E &e) { return e.c; } catch (int) { return 1; } }\n",
+    "CXXTryStmt_catch_all": "int g(); int f() { try { return g(); } catch (...) { return -1; } }\n",
+    "CXXTryStmt_nested": "int g(); int f() { try { try { return g(); } catch (int a) { throw; } } catch (...) { return 0; } return 1; }\n",
+    "CXXTryStmt_function_try_block": "int g(); int f() try { return g(); } catch (...) { return 0; }\n",
+    "CXXTryStmt_ctor_try_block": "int g(); struct S { int m; S() try : m(g()) {} catch (...) {} };\n",
+    "CXXThrowExpr_value": "int f(int a) { if (a) throw a; return 0; }\n",
+    "CXXThrowExpr_rethrow": "int translate() { throw; }\n",
+    "CXXThrowExpr_rethrow_in_catch": "int g(); int f() { try { return g(); } catch (...) { throw; } }\n",
+    "CXXThrowExpr_object": "struct E { int c; E(int a) : c(a) {} };\nvoid f(int a) { throw E(a); }\n",
+    "CXXThrowExpr_string": "void f() { throw \"bad\"; }\n",
+    "CXXThrowExpr_in_conditional": "int f(int a) { return a ? a : throw 1; }\n",
+    "CXXThrowExpr_noexcept_false": "void f() noexcept(false) { throw 1.5; }\n",
+    # ---- literals and primary expressions
+    "IntegerLiteral_kinds": "unsigned long long f() { return 1 + 2u + 3l + 4ul + 5ll + 6ull + 0x7 + 010 + 0b11 + 1'000; }\n",
+    "FloatingLiteral_kinds": "double f() { return 1.0 + 2.f + 3.L + 4e2 + 0x1p3 + .5; }\n",
+    "CharacterLiteral_kinds": "int f() { return 'a' + L'b' + u'c' + U'd' + '\\n' + '\\x41' + '\\0'; }\n",
+    "StringLiteral_kinds": "int f() { const char *a = \"x\"; const wchar_t *b = L\"y\"; const char16_t *c = u\"z\"; const char32_t *d = U\"w\"; const char *e = u8\"v\"; const char *r = R\"(raw)\"; return a[0] + b[0] + c[0] + d[0] + e[0] + r[0]; }\n",
+    "CXXBoolLiteralExpr": "bool f(bool a) { return a ? true : false; }\n",
+    "CXXNullPtrLiteralExpr": "int *f(int *p) { if (p == nullptr) return nullptr; decltype(nullptr) n = nullptr; return n; }\n",
+    "GNUNullExpr": "int *f() { return __null; }\n",
+    "ImaginaryLiteral": "double f() { _Complex double z = 1.0 + 2.0i; return __real__ z + __imag__ z; }\n",
+    "PredefinedExpr": "const char *f() { return __func__; } const char *g() { return __PRETTY_FUNCTION__; }\n",
+    "ParenExpr_nested": "int f(int a) { return (((a))) + ((a) * (2)); }\n",
+    "SourceLocExpr": "int f() { return __builtin_LINE() + __builtin_COLUMN(); } const char *g() { return __builtin_FILE(); }\n",
+    # ---- operators
+    "UnaryOperator_all": "int f(int a, int *p) { int b = +a; b = -b; b = !b; b = ~b; b = *p; p = &b; ++b; --b; b++; b--; return __extension__ b; }\n",
+    "BinaryOperator_arith": "int f(int a, int b) { return a + b - a * b / (b | 1) % (a | 1); }\n",
+    "BinaryOperator_bits_shift": "int f(int a, int b) { return ((a & b) | (a ^ b)) << (b & 3) >> 1; }\n",
+    "BinaryOperator_compare": "int f(int a, int b) { return (a < b) + (a > b) + (a <= b) + (a >= b) + (a == b) + (a != b); }\n",
+    "BinaryOperator_logical": "int f(int a, int b) { return (a && b) || (!a && !b); }\n",
+    "BinaryOperator_comma": "int f(int a, int b) { return a++, b++, a + b; }\n",
+    "BinaryOperator_assign_chain": "int f(int a) { int b, c; b = c = a; return b + c; }\n",
+    "BinaryOperator_pointer": "long f(int *p, int *q) { return (p + 1 - q) + (p < q) + (p == q); }\n",
+    "BinaryOperator_member_pointer": "struct S { int m; int g() { return m; } };\nint f(S s, S *p) { int S::*d = &S::m; int (S::*mf)() = &S::g; return s.*d + p->*d + (s.*mf)() + (p->*mf)(); }\n",
+    "CompoundAssignOperator_all": "int f(int a, int b) { a += b; a -= b; a *= b; a /= (b | 1); a %= (b | 1); a &= b; a |= b; a ^= b; a <<= 1; a >>= 1; return a; }\n",
+    "CompoundAssignOperator_pointer_float": "double f(double d, int *p) { p += 2; p -= 1; d += *p; d *= 2; d /= 3; return d; }\n",
+    "ConditionalOperator_comma": "int f(int a, int b) { return a ? (b++, b) : (a--, a); }\n",
+    "ConditionalOperator_nested_lvalue": "int f(int a, int b, int c) { (a ? b : c) = 1; return a ? b ? 1 : 2 : c ? 3 : 4; }\n",
+    "BinaryConditionalOperator": "int f(int a, int b) { return a ?: b; }\n",
+    "ArraySubscriptExpr_forms": "int f(int *p, int i) { int a[2][2] = {{1, 2}, {3, 4}}; return p[i] + i[p] + a[1][0] + \"ab\"[1] + (&a[0])[1][1]; }\n",
+    "CallExpr_forms": "int g(int); int (*gp)(int) = g; int (&gr)(int) = g;\nint f(int a) { return g(a) + gp(a) + (*gp)(a) + gr(a) + (g)(a) + (&g)(a); }\n",
+    "CallExpr_builtin": "int f(int a) { return __builtin_expect(a, 1) + __builtin_abs(a) + __builtin_popcount(a) + __builtin_constant_p(a); }\n",
+    "MemberExpr_forms": "struct I { int v; }; struct S { I i; I *p; int a[2]; static int s; };\nint S::s = 1;\nint f(S s, S *q) { return s.i.v + s.p->v + q->i.v + q->p->v + s.a[1] + q->a[0] + s.s + q->s + S::s; }\n",
+    "CStyleCastExpr": "int f(double d, void *v, long l) { return (int)d + *(int *)v + (char)l + (int)(long)v; }\n",
+    "CXXFunctionalCastExpr": "struct S { int m; S(int a) : m(a) {} };\nint f(double d) { return int(d) + S(3).m + S{4}.m + int{} + char(65); }\n",
+    "CXXStaticCastExpr": "struct B {}; struct D : B { int m; };\nint f(double d, B *b, void *v) { return static_cast<int>(d) + static_cast<D *>(b)->m + *static_cast<int *>(v); }\n",
+    "CXXDynamicCastExpr": "struct B { virtual ~B() {} }; struct D : B { int m; };\nint f(B *b, B &r) { D *d = dynamic_cast<D *>(b); D &dr = dynamic_cast<D &>(r); void *v = dynamic_cast<void *>(b); return (d ? d->m : 0) + dr.m + (v != 0); }\n",
+    "CXXReinterpretCastExpr": "long f(int *p, long l) { char *c = reinterpret_cast<char *>(p); int &r = reinterpret_cast<int &>(l); return reinterpret_cast<long>(c) + r; }\n",
+    "CXXConstCastExpr": "int f(const int *p, const int &r) { *const_cast<int *>(p) = 1; const_cast<int &>(r) = 2; return *p + r; }\n",
+    "ImplicitCastExpr_kinds": "struct B {}; struct D : B {}; void t(B *); void u(const int &); void w(bool);\nvoid f(D *d, short s, float fl, int a[3], int (*fp)()) { t(d); u(s); w(d); w(fl); double x = s; long l = fl; int *p = a; unsigned un = -1; (void)x; (void)l; (void)p; (void)un; (void)fp; }\n",
+    "CompoundLiteralExpr": "struct S { int a; int b; };\nint f() { int *p = (int[]){1, 2}; return ((struct S){3, 4}).b + p[0]; }\n",
+    "InitListExpr_nested": "struct I { int a; int b; }; struct S { I i; int v[3]; const char *s; };\nint f() { S s = {{1, 2}, {3, 4}, \"x\"}; S t = {}; S u{{5}}; int m[2][2] = {1, 2, 3, 4}; return s.i.b + t.v[0] + u.i.a + m[1][1]; }\n",
+    "DesignatedInitExpr": "struct S { int a; int b; };\nint f() { S s = {.a = 1, .b = 2}; return s.a + s.b; }\n",
+    "ImplicitValueInitExpr": "struct S { int a; int b; int c[4]; };\nint f() { S s = {1}; int v[8] = {1, 2}; return s.b + s.c[3] + v[7]; }\n",
+    "ParenListExpr_template": "template<class T> struct W { T t; W(int a) : t(a, a) {} }; struct P { P(int, int) {} };\nint f() { W<P> w(1); (void)w; return 0; }\n",
+    "VAArgExpr": "int f(int n, ...) { __builtin_va_list ap, aq; __builtin_va_start(ap, n); __builtin_va_copy(aq, ap); int a = __builtin_va_arg(ap, int); double d = __builtin_va_arg(aq, double); __builtin_va_end(ap); __builtin_va_end(aq); return a + (int)d; }\n",
+    "StmtExpr_nested": "int f(int a) { return ({ int b = ({ a + 1; }); if (b > 2) b = 2; b; }); }\n",
+    "UnaryExprOrTypeTraitExpr": "struct S { char c; long l; };\nunsigned long f(int a, int v[5]) { int w[a + 1]; return sizeof a + sizeof(a) + sizeof(S) + sizeof(int[3]) + sizeof v + sizeof w + alignof(S) + __alignof__(a) + sizeof(S::l) + sizeof \"abc\"; }\n",
+    "OffsetOfExpr": "struct I { int x; int y[3]; }; struct S { char c; I i; };\nunsigned long f() { return __builtin_offsetof(S, i) + __builtin_offsetof(S, i.y[2]); }\n",
+    "ChooseExpr": "int f(int a) { return __builtin_choose_expr(sizeof(int) == 4, a + 1, a - 1); }\n",
+    "AddrLabelExpr": "void *f() {\nl:\n  return &&l; }\n",
+    "TypeTraitExpr": "struct S { int m; };\nint f() { return __is_pod(S) + __is_class(S) + __is_same(int, int) + __is_base_of(S, S) + __has_trivial_destructor(S); }\n",
+    "AtomicExpr": "int f(int *p, _Atomic(int) *q) { int a = __atomic_load_n(p, 5); __atomic_store_n(p, a + 1, 5); a += __atomic_fetch_add(p, 1, 5); a += __c11_atomic_load(q, 5); __c11_atomic_store(q, a, 5); return a + __sync_fetch_and_add(p, 1); }\n",
+    "vector_extensions": "typedef int v4 __attribute__((vector_size(16))); typedef float f4 __attribute__((ext_vector_type(4)));\nint f(v4 a, v4 b, f4 c) { v4 s = a + b; v4 t = __builtin_shufflevector(a, b, 0, 1, 4, 5); f4 d = c.xyzw + c.wzyx; v4 e = __builtin_convertvector(c, v4); return s[0] + t[1] + (int)d.x + e[2]; }\n",
+    "BuiltinBitCastExpr": "int f(float x) { return __builtin_bit_cast(int, x); }\n",
+    "ConstantExpr_contexts": "constexpr int k = 3; enum E { A = k + 1 }; int arr[k * 2]; static_assert(k == 3, \"\");\ntemplate<int N> struct T { int v[N]; };\nint f(int a) { T<k + A> t; switch (a) { case k: return sizeof(t.v); case A + 1: return 1; } return sizeof(arr); }\n",
+    # ---- C++ object expressions
+    "CXXThisExpr": "struct S { int m; S *me() { return this; } int g() const { return this->m + (*this).m; } S &inc() { ++m; return *this; } };\nint f(S s) { return s.me()->g() + s.inc().inc().m; }\n",
+    "CXXThisExpr_lambda": "struct S { int m; int g() { auto l = [this]() { return m + this->m; }; return l(); } };\n",
+    "CXXDefaultArgExpr": "struct S { int m; S(int a = 7) : m(a) {} };\nint g(int a = 1, S s = S(), int *p = nullptr) { return a + s.m + (p ? 1 : 0); }\nint f() { return g() + g(2) + g(3, S(4)); }\n",
+    "CXXDefaultInitExpr": "int g(); struct S { int a = 1; int b = g(); int c{3}; int *p = nullptr; S() {} S(int x) : a(x) {} };\nint f() { S s; S t(2); S u = S{}; return s.b + t.c + u.a; }\n",
+    "CXXNewExpr_forms": "struct S { int m; S() : m(0) {} S(int a) : m(a) {} };\nint f(int n) { int *a = new int; int *b = new int(3); int *c = new int[n]; int *d = new int[3]{1, 2, 3}; S *s = new S; S *t = new S(4); S *u = new S[2]; S *v = new S{5}; int **pp = new int *[2]; int r = *a + *b + c[0] + d[2] + s->m + t->m + u[1].m + v->m; delete a; delete b; delete[] c; delete[] d; delete s; delete t; delete[] u; delete v; delete[] pp; return r; }\n",
+    "CXXNewExpr_placement": "void *operator new(unsigned long, void *p) noexcept { return p; }\nstruct S { int m; S(int a) : m(a) {} };\nint f() { alignas(S) char buf[sizeof(S)]; S *s = new (buf) S(3); int r = s->m; s->~S(); return r; }\n",
+    "CXXDeleteExpr_forms": "struct S { virtual ~S() {} }; struct D : S { int m; };\nvoid f(S *s, int *p, D *d, const int *c) { delete s; delete[] p; delete d; delete c; ::delete (int *)0; }\n",
+    "CXXConstructExpr_forms": "struct S { int m; S() : m(0) {} S(int a) : m(a) {} S(int a, int b) : m(a + b) {} S(const S &o) : m(o.m) {} };\nS mk() { return S(1, 2); }\nint f() { S a; S b(1); S c = 2; S d{3}; S e = {4, 5}; S g = b; S h(mk()); S i = S(S(6)); return a.m + b.m + c.m + d.m + e.m + g.m + h.m + i.m; }\n",
+    "CXXTemporaryObjectExpr": "struct S { int m; S(int a, int b) : m(a + b) {} ~S() {} int g() const { return m; } };\nint t(const S &s) { return s.m; }\nint f() { return S(1, 2).g() + t(S(3, 4)) + S{5, 6}.m; }\n",
+    "ExprWithCleanups_MaterializeTemporary": "struct S { int m; ~S() {} }; S mk();\nint f() { const S &r = mk(); S &&rr = mk(); int a = mk().m; return r.m + rr.m + a; }\n",
+    "CXXBindTemporaryExpr": "struct S { ~S(); int m; }; S mk(); void use(S);\nint f() { use(mk()); return mk().m; }\n",
+    "CXXMemberCallExpr_forms": "struct B { virtual int v() { return 1; } int n() const { return 2; } static int s() { return 3; } }; struct D : B { int v() override { return B::v() + 1; } };\nint f(D d, D *p, B &r) { return d.v() + p->v() + r.v() + d.n() + p->n() + d.s() + B::s() + p->B::v() + d.B::n(); }\n",
+    "CXXOperatorCallExpr_all": "struct V { int x; V operator+(V o) const { return V{x + o.x}; } V operator-() const { return V{-x}; } V &operator+=(V o) { x += o.x; return *this; } V &operator++() { ++x; return *this; } V operator++(int) { V t = *this; ++x; return t; } bool operator<(V o) const { return x < o.x; } bool operator!() const { return !x; } int operator[](int i) const { return x + i; } int operator()(int a) const { return x + a; } V *operator->() { return this; } int operator*() const { return x; } V &operator=(const V &o) { x = o.x; return *this; } V &operator,(V o) { (void)o; return *this; } explicit operator bool() const { return x != 0; } };\nV operator*(V a, V b) { return V{a.x * b.x}; } bool operator==(V a, V b) { return a.x == b.x; } V operator<<(V a, int s) { return V{a.x << s}; }\nint f(V a, V b) { V c = a + b; c += -a; ++c; c++; c = a * b; c = (a, b); return (a < b) + !a + c[1] + c(2) + c->x + *c + (a == b) + (c << 1).x + (c ? 1 : 0); }\n",
+    "CXXOperatorCallExpr_new_delete_members": "struct S { int m; static void *operator new(unsigned long n); static void operator delete(void *p); };\nint f() { S *s = new S; int r = s->m; delete s; return r; }\n",
+    "UserDefinedLiteral_kinds": "constexpr unsigned long long operator\"\" _i(unsigned long long v) { return v; } constexpr long double operator\"\" _d(long double v) { return v; } constexpr char operator\"\" _c(char c) { return c; } constexpr unsigned long operator\"\" _s(const char *s, unsigned long n) { return n + (s != nullptr); } constexpr int operator\"\" _r(const char *s) { return s[0]; }\nint f() { return (int)(1_i + 2.5_d + 'x'_c + \"ab\"_s + 12_r); }\n",
+    "LambdaExpr_capture_kinds": "struct S { int m; int g(int a) { int b = 1, c = 2; auto l0 = [] { return 0; }; auto l1 = [=] { return a + b; }; auto l2 = [&] { b++; return c; }; auto l3 = [a, &b] { b += a; return b; }; auto l4 = [this] { return m; }; auto l5 = [=, &c] { c = a; return m; }; auto l6 = [&, a] { return a + b + c; }; auto l7 = [k = a + 1, &r = b] { r++; return k; }; auto l8 = [*this] { return m; }; return l0() + l1() + l2() + l3() + l4() + l5() + l6() + l7() + l8(); } };\n",
+    "LambdaExpr_forms": "int f(int a) { auto g = [](auto x, auto y) { return x + y; }; auto m = [a]() mutable noexcept -> int { return ++a; }; int (*fp)(int) = [](int x) { return x * 2; }; auto n = [](int x = 3) { return x; }; auto r = [&a](int d) { if (d == 0) return a; return a + d; }; return g(1, 2) + (int)g(1.5, 2) + m() + fp(3) + n() + r(1) + [] { return 7; }(); }\n",
+    "LambdaExpr_nested_recursive": "int f(int a) { auto outer = [a](int b) { auto inner = [a, b](int c) { return a + b + c; }; return inner(1); }; return outer(2); }\n",
+    "CXXScalarValueInitExpr": "template<class T> T z() { return T(); }\nint f() { return int() + (int)double() + z<int>() + (z<int *>() == nullptr) + char(); }\n",
+    "CXXNoexceptExpr": "void g() noexcept; void h();\nint f() { return noexcept(g()) + noexcept(h()) + noexcept(1 + 1); }\n",
+    "CXXPseudoDestructorExpr": "typedef int I; template<class T> void d(T *p) { p->~T(); }\nvoid f(I *p) { p->~I(); d(p); }\n",
+    "CXXInheritedCtorInitExpr": "struct B { int m; B(int a) : m(a) {} B(int a, int b) : m(a + b) {} }; struct D : B { using B::B; int n = 1; };\nint f() { D d(1); D e(2, 3); return d.m + e.m + d.n; }\n",
+    "ArrayInitLoopExpr": "struct S { int a[3]; };\nint f(S s) { S t = s; int v[2] = {1, 2}; auto l = [v] { return v[1]; }; auto [x, y] = v; return t.a[2] + l() + x + y; }\n",
+    "DecompositionDecl": "struct P { int a; int b; };\nint f(P p) { auto [x, y] = p; auto &[u, w] = p; int arr[2] = {1, 2}; auto [m, n] = arr; u = 3; return x + y + w + m + n; }\n",
+    "SizeOfPackExpr_PackExpansion": "int g(int, int, int); template<class... Ts> int h(Ts... ts) { return sizeof...(Ts) + sizeof...(ts) + g(ts...); } template<class... Ts> int k(Ts... ts) { int v[] = {(ts + 1)...}; return v[0] + h(ts * 2 ...); }\nint f() { return k(1, 2, 3); }\n",
+    "CXXFoldExpr": "template<class... Ts> int sum(Ts... ts) { return (ts + ...); } template<class... Ts> bool all(Ts... ts) { return (... && ts); } template<class... Ts> int s0(Ts... ts) { return (0 + ... + ts); }\nint f() { return sum(1, 2, 3) + all(true, 1) + s0() + s0(4); }\n",
+    "SubstNonTypeTemplateParmExpr": "template<int N, bool B, char C> int g() { return N + B + C; } template<int *P> int h() { return *P; } int gv;\nint f() { return g<3, true, 'a'>() + h<&gv>(); }\n",
+    "dependent_exprs_uninstantiated": "template<class T> struct W { T t; int g(T a) { typename T::type x = a.m + T::s; a.template h<int>(x); this->t.k(); return sizeof(T) + T(1, 2).v + static_cast<int>(a) + (a ? 1 : 0) + x[0]; } };\ntemplate<class T> int u(T a) { T b(a); T c{a}; auto l = [=](T d) { return d + b; }; return l(c) + g(a) + a.f() + a->y + (*a).z + T::template q<3>(); }\n",
+    "dependent_exprs_instantiated": "struct A { typedef int type; int m; static int s; template<class U> void h(U) {} int k() { return 1; } };\nint A::s = 2;\ntemplate<class T> struct W { T t; int g(T a) { typename T::type x = a.m + T::s; a.template h<int>(x); return this->t.k() + x; } };\nint f() { W<A> w; return w.g(A()); }\n",
+    "OpaqueValueExpr_ArrayFiller": "int f(int a) { int v[100] = {a, a + 1}; char s[10] = \"ab\"; int w[4][4] = {{1}, {2}}; return v[50] + s[5] + w[3][3] + (a ?: 5); }\n",
+    # ---- declarations
+    "VarDecl_storage": "static int a; extern int b; int b = 1; thread_local int c; static thread_local int d; constexpr int e = 2; const int g = 3; extern const int h; inline int i = 4; volatile int j; int k(5); int l{6}; int m = {7};\nint f() { static int s; static const int t = 1; register int r = 2; return a + b + c + d + e + g + i + j + k + l + m + s + t + r; }\n",
+    "VarDecl_auto_types": "int g(); int f() { auto a = 1; auto b = 1.5; auto *p = &a; auto &r = a; const auto c = 'c'; auto &&u = g(); decltype(a) d = a; decltype((a)) e = a; return a + (int)b + *p + r + c + u + d + e; }\n",
+    "VarTemplateDecl": "template<class T> constexpr T pi = T(3); template<class T> T zero{}; template<> constexpr int pi<char> = 4;\nint f() { return pi<int> + (int)pi<double> + zero<int> + pi<char>; }\n",
+    "FunctionDecl_specifiers": "inline int a() { return 1; } static int b() { return 2; } constexpr int c() { return 3; } int d() noexcept { return 4; } [[noreturn]] void e(); extern int g(); int h(void); int i(...); auto j() -> int { return 5; } auto k() { return 6; } decltype(auto) l() { return 7; } int m() = delete; static inline constexpr int n() noexcept { return 8; }\nint f() { return a() + b() + c() + d() + j() + k() + l() + n(); }\n",
+    "FunctionDecl_params": "int g(int, int b, int = 3, const int &r = 4, int *p = nullptr, int a[] = nullptr, int (*fp)(int) = nullptr, int (&ar)[2] = *(int (*)[2])nullptr, ...);\nint f(int a, int, int c) { return a + c; }\n",
+    "FunctionDecl_overload_redecl": "int g(int); int g(int); int g(int a) { return a; } int g(double); int g(int, int = 0) = delete;\nint f() { return g(1.0); }\n",
+    "main_function": "int main(int argc, char **argv) { return argc + (argv[0] != nullptr); }\n",
+    "FieldDecl_kinds": "struct S { int a; mutable int b; const int c = 1; int d : 3; unsigned : 2; int e : 4 = 1; static int s; static const int k = 5; static constexpr int ce = 6; int arr[2]; int *p; int &r; int S::*mp; int (*fp)(int); S(int &x) : r(x) {} };\nint S::s = 0;\n",
+    "CXXRecordDecl_kinds": "struct A { int a; }; class B { int b; public: int c; protected: int d; private: int e; }; union U { int i; char c; }; struct E {}; struct F final : A {}; struct G : public A, private E {}; struct V1 : virtual A {}; struct V2 : virtual A {}; struct J : V1, V2 { int j() { return a; } }; struct Abs { virtual int p() = 0; virtual ~Abs() = default; }; struct Impl : Abs { int p() override { return 1; } }; struct Fwd; struct Fwd { Fwd *next; };\nint f() { J j; Impl i; G g; F ff; B b; (void)b; (void)ff; return j.j() + i.p() + g.a; }\n",
+    "CXXRecordDecl_nested_local_anon": "struct O { struct I { int v; struct D { int w; } d; } i; enum E { X, Y } e; typedef int T; static int s; union { int u1; char u2; }; struct { int an; } n; };\nint O::s = 0;\nint f() { O o; o.u1 = 1; o.n.an = 2; O::I::D dd = {3}; struct { int q; } loc = {4}; return o.u1 + o.n.an + dd.w + loc.q + O::Y; }\n",
+    "EnumDecl_kinds": "enum A { A0, A1 = 5, A2 }; enum class B { X, Y = 3 }; enum struct C : unsigned char { P = 255 }; enum D : short; enum D : short { D0 = -1 }; enum { ANON = 9 }; typedef enum { T0 } TE; enum class Fw; enum class Fw { Z };\nint f(A a, B b) { TE t = T0; return a + (int)b + (int)C::P + D0 + ANON + t + (int)Fw::Z + (b == B::Y) + (a < A2); }\n",
+    "TypedefDecl_TypeAliasDecl": "typedef int I; typedef I *IP; typedef int A3[3]; typedef int (*FP)(int); typedef int (S0)(int); typedef struct { int m; } TS; typedef struct N { struct N *n; } N; using U = unsigned; using UP = U *; using UF = int (*)(int); using UA = int[2]; template<class T> using Ptr = T *; template<class T, int K> using Arr = T[K];\nint f(I a, IP p, A3 v, FP fp, TS t, N *n, U u, UF uf, Ptr<int> q, Arr<int, 2> &r) { S0 *s = fp; return a + *p + v[0] + fp(1) + s(2) + t.m + (n->n != nullptr) + u + uf(3) + *q + r[1]; }\n",
+    "NamespaceDecl_kinds": "namespace A { int a; namespace B { int b; } } namespace A { int a2; } namespace { int anon; } inline namespace I { int i; } namespace A::B::C { int c; } namespace AB = A::B; namespace ABC = AB::C;\nint f() { using namespace A; using A::B::b; using namespace AB; return a + a2 + b + anon + i + I::i + ABC::c + ::A::B::C::c; }\n",
+    "UsingDecl_kinds": "namespace N { int v; int g(int); int g(double); struct S { int m; }; enum E { X }; } struct B { int m; void h(int); void h(double); protected: int p; }; struct D : B { using B::h; using B::p; void h(char); };\nusing N::v; using N::g; using N::S; using N::E; using N::X;\nint f() { S s = {1}; E e = X; D d; d.h(1); d.h('c'); d.p = 2; return v + g(1) + g(1.0) + s.m + e + d.p; }\n",
+    "LinkageSpecDecl": "extern \"C\" int c1(int); extern \"C\" { int c2(int); extern int cv; struct CS { int m; }; } extern \"C++\" { int cpp1(); } extern \"C\" int c3(int a) { return a; } extern \"C\" { static int c4() { return 1; } }\nint f() { CS s = {1}; return c1(1) + c2(2) + cv + cpp1() + c3(3) + c4() + s.m; }\n",
+    "StaticAssertDecl": "static_assert(sizeof(int) >= 2, \"msg\"); static_assert(true); struct S { static_assert(sizeof(char) == 1, \"\"); int m; }; template<class T> struct W { static_assert(sizeof(T) > 0, \"\"); };\nint f() { static_assert(1 + 1 == 2, \"\"); W<int> w; (void)w; return 0; }\n",
+    "FriendDecl_kinds": "class A; class B { friend class A; friend struct C; friend int peek(const B &); friend int inl(const B &b) { return b.x; } template<class T> friend struct W; template<class T> friend T tf(const B &); int x = 1; };\nclass A { public: int g(const B &b) { return b.x; } }; int peek(const B &b) { return b.x; } template<class T> T tf(const B &b) { return b.x; }\nint f() { B b; A a; return a.g(b) + peek(b) + inl(b) + tf<int>(b); }\n",
+    "AccessSpecDecl": "class C { public: int a; protected: int b; private: int c; public: C() : a(1), b(2), c(3) {} int sum() const { return a + b + c; } };\nstruct S { private: int p = 1; public: int q = p; };\nint f() { C c; S s; return c.sum() + s.q; }\n",
+    "CXXConstructorDecl_kinds": "struct B { int b; B() : b(0) {} explicit B(int a) : b(a) {} }; struct M { int m; M(int a = 0) : m(a) {} };\nstruct S : B { M m1, m2; int a; int arr[2]; const int c; int &r; S() : S(1) {} S(int x) : B(x), m1(x), m2{x + 1}, a(x), arr{1, 2}, c(3), r(a) {} S(const S &o) : B(o), m1(o.m1), m2(o.m2), a(o.a), arr{o.arr[0], o.arr[1]}, c(o.c), r(a) {} S(S &&o) noexcept : S(o.a) {} S(int x, int y) : S(x + y) {} S &operator=(const S &) = delete; };\nstruct Def { Def() = default; Def(const Def &) = default; Def(Def &&) = default; Def &operator=(const Def &) = default; Def &operator=(Def &&) = default; ~Def() = default; int m = 1; };\nint f() { S s; S t(2); S u(t); S v(static_cast<S &&>(t)); S w(1, 2); Def d; Def e(d); Def g(static_cast<Def &&>(d)); e = g; return s.a + t.a + u.a + v.a + w.a + e.m; }\n",
+    "CXXDestructorDecl_kinds": "struct A { ~A() {} }; struct B { virtual ~B(); }; B::~B() {} struct C : B { ~C() override {} }; struct D { ~D() = default; }; struct E { virtual ~E() = 0; }; E::~E() {} struct F : E { ~F() noexcept {} }; struct G { ~G() = delete; }; struct H { A a; B b; };\nint f() { A a; C c; D d; F ff; H h; B *p = new C; delete p; a.~A(); (void)d; (void)ff; (void)h; return 0; }\n",
+    "CXXConversionDecl": "struct S { int m; operator int() const { return m; } explicit operator bool() const { return m != 0; } operator const char *() const { return \"s\"; } template<class T> operator T *() const { return nullptr; } };\nint f(S s) { int a = s; const char *c = s; long *lp = s; if (s) a++; return a + c[0] + (lp == nullptr) + static_cast<bool>(s) + (s ? 1 : 2); }\n",
+    "CXXMethodDecl_qualifiers": "struct S { int m; int a() { return m; } int b() const { return m; } int c() volatile { return m; } int d() const volatile { return m; } int e() & { return 1; } int e() && { return 2; } int g() const & { return 3; } int h() noexcept { return m; } static int s() { return 4; } virtual int v() { return 5; } virtual int w() const = 0; inline int i(); constexpr int k() const { return 6; } auto t() const -> int { return m; } };\nint S::i() { return 7; }\nstruct D final : S { int v() override final { return 8; } int w() const override { return 9; } };\nint f(D d, const D cd) { return d.a() + cd.b() + d.e() + static_cast<D &&>(d).e() + cd.g() + S::s() + d.v() + cd.w() + d.i() + cd.k() + cd.t(); }\n",
+    "FunctionTemplateDecl_kinds": "template<class T> T id(T t) { return t; } template<> int id<int>(int t) { return t + 1; } template int *id<int *>(int *); extern template double id<double>(double); template<class T, class U = int, int N = 3> U conv(T t) { return U(t) + N; } template<class T> T ov(T) { return T(); } template<class T> T ov(T *) { return T(); } template<typename T, typename... R> int cnt(T, R... r) { return 1 + sizeof...(r); } template<class T> constexpr T sq(T t) { return t * t; } template<template<class> class C, class T> int tt(C<T>) { return 1; } template<class T> struct Box {};\nint f() { int x = 0; Box<int> b; return id(1) + (int)id(1.5) + (int)id('c') + *id(&x) + conv(1.5) + conv<int, long, 4>(2) + ov(1) + ov(&x) + cnt(1, 2, 3) + sq(3) + tt(b); }\n",
+    "ClassTemplateDecl_kinds": "template<class T, int N = 2> struct A { T v[N]; T get(int i) const { return v[i]; } template<class U> U as(int i) const { return U(v[i]); } static int cnt; typedef T value_type; struct In { T t; }; }; template<class T, int N> int A<T, N>::cnt = N; template<class T> struct A<T, 0> { T get(int) const { return T(); } }; template<> struct A<char, 1> { char get(int) const { return 'x'; } }; template struct A<long, 3>; extern template struct A<short, 3>; template<class T> struct B : A<T> { T first() const { return this->get(0); } using typename A<T>::value_type; value_type second() const { return A<T>::v[1]; } }; template<class T> struct C; template<class T> struct C<T *> { int p() { return 1; } }; template<class T> struct C<T &> { int p() { return 2; } };\nint f() { A<int> a = {{1, 2}}; A<int, 0> z; A<char, 1> c; B<int> b = {}; C<int *> cp; C<int &> cr; A<int>::In in = {3}; A<double, 1>::value_type d = 1.5; return a.get(1) + a.as<long>(0) + A<int>::cnt + z.get(0) + c.get(0) + b.first() + b.second() + cp.p() + cr.p() + in.t + (int)d; }\n",
+    "template_member_out_of_line": "template<class T> struct S { T m; S(T t); ~S(); T get() const; template<class U> U conv() const; static T make(); S &operator+=(const S &o); }; template<class T> S<T>::S(T t) : m(t) {} template<class T> S<T>::~S() {} template<class T> T S<T>::get() const { return m; } template<class T> template<class U> U S<T>::conv() const { return U(m); } template<class T> T S<T>::make() { return T(); } template<class T> S<T> &S<T>::operator+=(const S &o) { m += o.m; return *this; }\nint f() { S<int> s(1); S<int> t(2); s += t; return s.get() + (int)s.conv<double>() + S<int>::make(); }\n",
+    "TemplateTemplateParm_defaults": "template<class T> struct V { T t; }; template<template<class> class C = V, class T = int> struct H { C<T> c; }; template<class T, T N> struct K { static constexpr T v = N; }; template<int... Ns> struct Seq { static constexpr int n = sizeof...(Ns); }; template<class... Ts> struct Tup {}; template<class T, class... Ts> struct Tup<T, Ts...> : Tup<Ts...> { T head; };\nint f() { H<> h; h.c.t = 1; Tup<int, char, double> t; t.head = 2; return h.c.t + K<int, 3>::v + K<char, 'a'>::v + Seq<1, 2, 3>::n + t.head; }\n",
+    "IndirectFieldDecl": "struct S { union { int i; float f; struct { short lo; short hi; }; }; struct { int a; union { int b; char c; }; }; };\nint f() { S s; s.i = 1; s.lo = 2; s.a = 3; s.b = 4; return s.i + s.hi + s.a + s.c; }\nstatic union { int gi; char gc; };\nint g() { gi = 1; return gc; }\n",
+    "EmptyDecl_FileScopeAsm": ";\nasm(\"nop\");\n;;\nint f() { return 0; };\n",
+    "attributes_decl": "[[noreturn]] void die(); [[deprecated(\"x\")]] int old(); [[nodiscard]] int nd(); [[maybe_unused]] static int mu; __attribute__((noinline)) int ni() { return 1; } __attribute__((always_inline)) inline int ai() { return 2; } __attribute__((format(printf, 1, 2))) int pf(const char *, ...); __attribute__((unused)) static int un; __attribute__((aligned(16))) int al; struct __attribute__((packed)) P { char c; int i; }; __attribute__((constructor)) static void ctor() {} __attribute__((weak)) int wk; __attribute__((visibility(\"hidden\"))) int hid; __attribute__((section(\"mysec\"))) int sec; int arr[4] __attribute__((aligned(8))); __attribute__((pure)) int pu(int); __attribute__((const)) int co(int); __attribute__((malloc)) void *ma(unsigned long); __attribute__((nonnull(1))) int nn(int *p); __attribute__((warn_unused_result)) int wur(); void cl(int *); __attribute__((noreturn)) void nr();\nint f(int a) { [[maybe_unused]] int x = a; __attribute__((cleanup(cl))) int y = 1; if (a > 100) die(); P p = {1, 2}; return ni() + ai() + al + p.i + wk + hid + sec + arr[0] + pu(a) + co(a) + y; }\n",
+    "alignas_pragma_pack": "struct alignas(16) A { char c; }; alignas(8) char buf[16]; alignas(int) alignas(long) char b2[8];\n#pragma pack(push, 1)\nstruct P { char c; int i; };\n#pragma pack(pop)\nint f() { A a; P p = {1, 2}; alignas(32) int loc = 0; return alignof(A) + sizeof(p) + sizeof(a) + buf[0] + b2[0] + loc + p.i; }\n",
+    "references_kinds": "int g(); void lv(int &); void rv(int &&); void cl(const int &); template<class T> void fw(T &&t) { lv(t); } int &ret(int &a) { return a; } int &&mv(int &a) { return static_cast<int &&>(a); }\nint f(int a) { int &r = a; const int &c = 1; int &&rr = g(); int &r2 = r; const int &c2 = a + 1; int (&ar)[1] = *(int (*)[1])&a; lv(a); lv(r); rv(1); rv(mv(a)); cl(a); cl(2); fw(a); ret(a) = 3; return r + c + rr + r2 + c2 + ar[0]; }\n",
+    "constexpr_kinds": "constexpr int fact(int n) { return n <= 1 ? 1 : n * fact(n - 1); } constexpr int loop(int n) { int s = 0; for (int i = 0; i < n; i++) s += i; return s; } struct P { int x, y; constexpr P(int a, int b) : x(a), y(b) {} constexpr int sum() const { return x + y; } }; constexpr P origin(1, 2); constexpr int arr[] = {1, 2, 3}; constexpr const char *str = \"abc\"; template<int N> struct I { static constexpr int v = N; };\nint f() { constexpr int a = fact(4); constexpr int b = loop(4); static_assert(origin.sum() == 3, \"\"); int v[I<fact(3)>::v]; return a + b + arr[1] + str[0] + (int)sizeof(v); }\n",
+    "noexcept_kinds": "void a() noexcept; void b() noexcept(true); void c() noexcept(false); void d() throw(); template<class T> void e(T t) noexcept(noexcept(t.g())) { t.g(); } struct G { void g() noexcept {} }; struct H { void g() {} }; void (*fp)() noexcept = a; struct S { S() noexcept {} ~S() noexcept(false) {} void m() const noexcept {} };\nint f() { e(G()); e(H()); S s; s.m(); return noexcept(a()) + noexcept(c()) + noexcept(e(G())) + noexcept(S()); }\n",
+    "default_arguments_kinds": "int g(int a = 1, double d = 2.5, const char *s = \"x\", int *p = nullptr, bool b = true, char c = 'c'); int gv = 3; int h(int a = gv, int b = g()); struct S { int m(int a = 7) { return a; } static int s(int a = sizeof(int)) { return a; } S(int a = 0, int b = 1) {} }; template<class T> T t(T a = T()) { return a; } int k(int (*f)(int) = nullptr, int (&r)[2] = *(int (*)[2])nullptr);\nint f() { S s; S s1(1); S s2(1, 2); return g() + g(1) + g(1, 2.0) + h() + h(1) + s.m() + S::s() + t<int>() + t(1); }\n",
+    "variadic_functions": "int sum(int n, ...); int pr(const char *f, ...) __attribute__((format(printf, 1, 2))); template<class... A> int tv(A... a) { return sum((int)sizeof...(a), a...); } int old(...);\nint f() { return sum(0) + sum(2, 1, 2) + sum(3, 1.5, 'c', \"s\") + pr(\"%d %s\", 1, \"x\") + tv() + tv(1, 2L, 3.0f) + old(1, 2); }\n",
+    "static_members_kinds": "struct S { static int a; static const int b = 2; static constexpr int c = 3; static inline int d = 4; static int arr[2]; static S *inst; static int g() { return a; } static const char *const name; int m; };\nint S::a = 1; int S::arr[2] = {1, 2}; S *S::inst = nullptr; const char *const S::name = \"S\";\nint f(S s, S *p) { return S::a + S::b + S::c + S::d + S::arr[1] + (S::inst == nullptr) + S::g() + s.a + p->b + s.g() + S::name[0]; }\n",
+    "virtual_override_kinds": "struct A { virtual int a() { return 1; } virtual int b() const { return 2; } virtual int c() = 0; virtual int d(int x = 1) { return x; } virtual ~A() {} }; struct B : A { int a() override { return 3; } int b() const final { return 4; } int c() override { return A::a(); } int d(int x = 2) override { return x; } }; struct C : B { int a() final { return B::a() + 1; } int c() override { return 5; } }; struct V1 : virtual A { int c() override { return 6; } }; struct V2 : virtual A { int a() override { return 7; } }; struct J final : V1, V2 {};\nint f(A &r, A *p) { C c; J j; B b; A &rb = b; return r.a() + p->b() + c.a() + c.c() + j.a() + j.c() + rb.d() + p->A::a() + c.B::c(); }\n",
+    "operator_overload_free_kinds": "struct V { int x; }; V operator+(V a, V b) { return {a.x + b.x}; } V operator-(V a) { return {-a.x}; } V &operator+=(V &a, V b) { a.x += b.x; return a; } bool operator==(V a, V b) { return a.x == b.x; } bool operator!=(V a, V b) { return !(a == b); } bool operator<(V a, V b) { return a.x < b.x; } V &operator++(V &a) { ++a.x; return a; } V operator++(V &a, int) { V t = a; ++a.x; return t; } V operator<<(V a, int s) { return {a.x << s}; } int operator&(V a, V b) { return a.x & b.x; } bool operator&&(V a, V b) { return a.x && b.x; } V operator~(V a) { return {~a.x}; } V operator%(V a, int m) { return {a.x % m}; } int operator*(V a) { return a.x; } V operator\"\" _v(unsigned long long n) { return {(int)n}; } void *operator new(unsigned long n, int tag); void operator delete(void *p, int tag);\nint f(V a, V b) { V c = a + b; c += -a; ++c; c++; return (c == a) + (c != b) + (a < b) + (c << 1).x + (a & b) + (a && b) + (~a).x + (a % 3).x + *c + (5_v).x + operator+(a, b).x; }\n",
+    "explicit_instantiation_specialization": "template<class T> struct S { T m; T get(); static int n; }; template<class T> T S<T>::get() { return m; } template<class T> int S<T>::n = 1; template<> char S<char>::get(); template<> int S<long>::n = 5; template struct S<int>; template double S<double>::get(); extern template struct S<float>; template<class T> T fn(T); template<> int fn<int>(int a) { return a; } template long fn<long>(long); template<class T> T fn(T t) { return t; }\nint f() { S<int> s = {1}; S<long> l = {2}; return s.get() + S<long>::n + (int)l.get() + fn(3) + (int)fn(4L); }\n",
+    "sfinae_decltype_traits": "template<bool B, class T = void> struct en {}; template<class T> struct en<true, T> { typedef T type; }; template<class T> struct is_int { static const bool v = false; }; template<> struct is_int<int> { static const bool v = true; }; template<class T> typename en<is_int<T>::v, int>::type g(T) { return 1; } template<class T> typename en<!is_int<T>::v, int>::type g(T) { return 2; } template<class T> auto h(T t) -> decltype(t.m) { return t.m; } int h(...) { return 0; } struct M { int m; }; template<class T, class = decltype(T().m)> int k(T) { return 3; }\nint f() { return g(1) + g(1.5) + h(M{4}) + h(5) + k(M{}); }\n",
+    "global_initialisers": "int g(); struct S { int m; S(int a) : m(a) {} ~S() {} }; int a = g(); S s(1); S t = S(g()); static S u{2}; int arr[] = {g(), 2}; const char *names[] = {\"a\", \"b\"}; int (*fps[])() = {g, g}; S *ps = new S(3); int &ref = a; const int &cref = 5; namespace N { S ns(4); thread_local int tl = g(); }\nint f() { static S loc(g()); return a + s.m + t.m + u.m + arr[0] + names[1][0] + fps[0]() + ps->m + ref + cref + N::ns.m + N::tl + loc.m; }\n",
+    "pointer_kinds": "struct S { int m; int g(); }; int gf(int);\nint f(int a) { int *p = &a; int **pp = &p; const int *cp = p; int *const pc = p; const int *const cpc = p; void *v = p; const void *cv = cp; int (*fp)(int) = gf; int (**fpp)(int) = &fp; int (*afp[2])(int) = {gf, gf}; int (*pa)[2] = nullptr; int S::*mp = &S::m; int (S::*mf)() = &S::g; char *s = (char *)v; int *n = 0; int *np = nullptr; (void)pc; (void)cpc; (void)cv; (void)pa; (void)mp; (void)mf; (void)s; (void)n; (void)np; return **pp + (*fpp)(1) + afp[1](2) + (p != nullptr) + (p - p) + *(p + 0) + p[0]; }\n",
+    "array_kinds": "int g(int n) { int a[3]; int b[] = {1, 2}; int c[2][3] = {}; char s[] = \"ab\"; char t[5] = \"ab\"; const int d[2] = {1, 2}; static int e[4]; int *f[2] = {a, b}; int (*h)[3] = c; int v[n]; int w[n][2]; a[0] = 1; v[0] = 2; w[0][1] = 3; return a[0] + b[1] + c[1][2] + s[0] + t[4] + d[1] + e[3] + *f[1] + (*h)[0] + h[1][1] + v[0] + w[0][1] + (int)(sizeof(a) / sizeof(a[0])) + (int)sizeof(v); }\n",
+    "bitfield_kinds": "enum E { A, B }; struct S { int a : 1; unsigned b : 31; bool c : 1; E e : 2; long long d : 40; unsigned : 0; char f : 7; int : 3; signed g : 2; static const int W = 4; int h : W; };\nint f(S s) { s.a = -1; s.b = 7u; s.c = true; s.e = B; s.d = 1LL << 35; s.f = 'a'; s.g = 1; s.h = 3; s.b++; s.b += 2; return s.a + s.b + s.c + s.e + (int)(s.d >> 35) + s.f + s.g + s.h; }\n",
+    "union_kinds": "union U { int i; float f; char c[4]; struct { short lo, hi; } s; U() : i(0) {} U(float x) : f(x) {} int get() const { return i; } }; union V { int a; double b; }; struct T { int tag; union { int i; double d; }; };\nint f() { U u; U w(1.5f); V v = {1}; V v2 = {.b = 2.0}; T t = {0, {3}}; u.s.lo = 1; return u.get() + w.c[0] + v.a + (int)v2.b + t.i + (int)sizeof(U); }\n",
+    "goto_into_scopes": "int f(int a) { int r = 0; if (a > 5) goto big; { r = 1; goto done; }\nbig:\n  r = 2; { int k = a; r += k; }\ndone:\n  for (int i = 0; i < 2; i++) { if (i == a) goto out; } r++;\nout:\n  return r; }\n",
+}
+
+KINDS_C = {
+    "NullStmt": "void f(void) { ; }\n",
+    "LabelStmt_GotoStmt": "int f(int a) {\nagain:\n  if (a++ < 3) goto again;\n  goto end;\nend:\n  return a; }\n",
+    "IndirectGotoStmt": "int f(int a) { static void *t[] = {&&l0, &&l1}; goto *t[a & 1];\nl0:\n  return 0;\nl1:\n  return 1; }\n",
+    "IfStmt_else_chain": "int f(int a) { if (a == 1) return 1; else if (a == 2) return 2; else return 3; }\n",
+    "SwitchStmt_fallthrough_default_first": "int f(int a) { int r = 0; switch (a) { default: r = 9; case 0: r++; case 1: r += 2; break; case 2: { r = 5; } } return r; }\n",
+    "SwitchStmt_duff": "void f(char *to, const char *from, int n) { int k = (n + 3) / 4; switch (n % 4) { case 0: do { *to++ = *from++; case 3: *to++ = *from++; case 2: *to++ = *from++; case 1: *to++ = *from++; } while (--k > 0); } }\n",
+    "SwitchStmt_enum_char": "enum E { A, B, C };\nint f(enum E e, char c) { switch (e) { case A: return 1; case B: case C: break; } switch (c) { case 'a': return 2; case '\\n': return 3; } return 0; }\n",
+    "WhileStmt_DoStmt_forms": "int f(int a) { while (a-- > 0); do a++; while (a < 3); while (1) { if (a++ > 5) break; } do { continue; } while (0); return a; }\n",
+    "ForStmt_forms": "int f(int a) { int i; for (;;) { if (a++ > 3) break; } for (i = 0; i < 3; i++); for (int j = 0, k = 1; j < k; j++, k--) a += j; for (; a < 20;) a += 5; return a + i; }\n",
+    "ReturnStmt_forms": "void v(int a) { if (a) return; } int *p(int *q) { return q; } struct S { int m; }; struct S s(void) { return (struct S){1}; } double d(int a) { return a; } _Bool b(int a) { return a; }\n",
+    "DeclStmt_multi_mixed": "int f(void) { int a = 1, *p = &a, b[2] = {1, 2}, (*fp)(void) = f; struct L { int m; } l = {1}, *lp = &l; enum { X = 2 } e = X; typedef int I; I i = 3; a++; int late = a; return *p + b[1] + (fp != 0) + lp->m + e + i + late; }\n",
+    "literals_all": "double f(void) { return 1 + 2u + 3l + 4ul + 5ll + 6ull + 0x7 + 010 + 1.0 + 2.f + 3.L + 4e2 + 0x1p3 + .5 + 'a' + L'b' + '\\n' + '\\x41' + '\\0' + \"s\"[0] + L\"w\"[0] + u8\"u\"[0] + u\"x\"[0] + U\"y\"[0]; }\n",
+    "ImaginaryLiteral_complex": "double f(void) { _Complex double z = 1.0 + 2.0i; _Complex float w = 1.0f; z = z * w + z / z - z; return __real__ z + __imag__ z + (z == w); }\n",
+    "PredefinedExpr": "const char *f(void) { return __func__; } const char *g(void) { return __FUNCTION__; }\n",
+    "UnaryOperator_all": "int f(int a, int *p) { int b = +a; b = -b; b = !b; b = ~b; b = *p; p = &b; ++b; --b; b++; b--; return __extension__ b; }\n",
+    "BinaryOperator_all": "int f(int a, int b, int *p, int *q) { return a + b - a * b / (b | 1) % (a | 1) + ((a & b) | (a ^ b)) + (a << 1 >> 1) + (a < b) + (a > b) + (a <= b) + (a >= b) + (a == b) + (a != b) + (a && b) + (a || b) + (int)(p - q) + (p < q) + *(p + 1) + (a, b); }\n",
+    "CompoundAssignOperator_all": "int f(int a, int b, double d, int *p) { a += b; a -= b; a *= b; a /= (b | 1); a %= (b | 1); a &= b; a |= b; a ^= b; a <<= 1; a >>= 1; d += a; d *= 2; p += 1; p -= 1; return a + (int)d + *p; }\n",
+    "ConditionalOperator_forms": "int f(int a, int b, int *p) { return (a ? b : a) + (a ? (b++, b) : (a--, a)) + (a ?: b) + *(a ? p : &b) + (a ? b ? 1 : 2 : 3) + (int)(a ? 1.5 : 2); }\n",
+    "ArraySubscriptExpr_forms": "int f(int *p, int i) { int a[2][2] = {{1, 2}, {3, 4}}; return p[i] + i[p] + a[1][0] + \"ab\"[1] + (&a[0])[1][1]; }\n",
+    "CallExpr_forms": "int g(int); int (*gp)(int) = g; int k(); int v(int, ...);\nint f(int a) { return g(a) + gp(a) + (*gp)(a) + (g)(a) + (&g)(a) + (****g)(a) + k(1, 2) + v(1, 2.0, \"s\") + __builtin_expect(a, 1) + __builtin_abs(a); }\n",
+    "MemberExpr_forms": "struct I { int v; }; struct S { struct I i; struct I *p; int a[2]; };\nint f(struct S s, struct S *q) { return s.i.v + s.p->v + q->i.v + q->p->v + s.a[1] + q->a[0] + (*q).i.v + (&s)->a[0]; }\n",
+    "CStyleCastExpr_ImplicitCast": "void t(double); int f(double d, void *v, long l, short s, float fl, int a[3]) { t(s); t(fl); double x = s; long y = fl; int *p = a; unsigned u = -1; char c = l; _Bool b = d; void *w = p; int *r = w; return (int)d + *(int *)v + (char)l + (int)(long)v + (int)x + (int)y + *p + u + c + b + *r; }\n",
+    "CompoundLiteralExpr_forms": "struct S { int a; int b; }; int g(struct S s); int h(const int *p);\nint f(void) { int *p = (int[]){1, 2, 3}; struct S *q = &(struct S){.b = 2}; return g((struct S){1, 2}) + h((int[]){5, 6}) + p[2] + q->b + (int){7} + (const char[]){\"ab\"}[0]; }\n",
+    "InitListExpr_DesignatedInitExpr": "struct I { int a; int b; }; struct S { struct I i; int v[4]; const char *s; union { int u; float f; }; };\nstruct S g1 = {{1, 2}, {3, 4}, \"x\", {5}}; struct S g2 = {.s = \"y\", .i.b = 2, .v = {[1] = 1, [3] = 3}, .f = 1.0f}; struct I arr[] = {[2] = {1, 2}, [0].b = 3}; int m[2][3] = {{1}, [1][2] = 4}; int r[] = {[0 ... 2] = 7, [5] = 1};\nint f(void) { struct S l = {0}; struct I i = {.b = g1.i.a}; return g2.v[3] + arr[2].a + m[1][2] + r[1] + l.v[0] + i.b; }\n",
+    "VAArgExpr": "int f(int n, ...) { __builtin_va_list ap, aq; __builtin_va_start(ap, n); __builtin_va_copy(aq, ap); int a = __builtin_va_arg(ap, int); double d = __builtin_va_arg(aq, double); char *s = __builtin_va_arg(ap, char *); __builtin_va_end(ap); __builtin_va_end(aq); return a + (int)d + (s != 0); }\n",
+    "StmtExpr_nested": "int f(int a) { return ({ int b = ({ a + 1; }); if (b > 2) b = 2; b; }); }\n",
+    "UnaryExprOrTypeTraitExpr": "struct S { char c; long l; };\nunsigned long f(int a, int v[5]) { int w[a + 1]; return sizeof a + sizeof(a) + sizeof(struct S) + sizeof(int[3]) + sizeof v + sizeof w + _Alignof(struct S) + __alignof__(a) + sizeof(((struct S *)0)->l) + sizeof \"abc\" + sizeof(int[a]); }\n",
+    "OffsetOfExpr": "struct I { int x; int y[3]; }; struct S { char c; struct I i; };\nunsigned long f(int k) { return __builtin_offsetof(struct S, i) + __builtin_offsetof(struct S, i.y[2]) + __builtin_offsetof(struct S, i.y[k]); }\n",
+    "GenericSelectionExpr": "int fi(int); int fd(double);\nint f(int a, double d, char *s) { return _Generic(a, int: 1, double: 2, default: 3) + _Generic(d, int: fi, double: fd)(d) + _Generic(s, char *: 4, const char *: 5) + _Generic((a), default: a); }\n",
+    "ChooseExpr_builtins": "int f(int a) { return __builtin_choose_expr(sizeof(int) == 4, a + 1, a - 1) + __builtin_types_compatible_p(int, int) + __builtin_constant_p(a) + __builtin_popcount(a) + (int)__builtin_strlen(\"abc\"); }\n",
+    "AddrLabelExpr": "void *f(void) {\nl:\n  return &&l; }\n",
+    "AtomicExpr": "int f(int *p, _Atomic(int) *q, _Atomic int r) { int a = __atomic_load_n(p, 5); __atomic_store_n(p, a + 1, 5); a += __atomic_fetch_add(p, 1, 5); a += __c11_atomic_load(q, 5); __c11_atomic_store(q, a, 5); r++; r += 2; *q = r; return a + __sync_fetch_and_add(p, 1) + r; }\n",
+    "vector_extensions": "typedef int v4 __attribute__((vector_size(16))); typedef float f4 __attribute__((ext_vector_type(4)));\nint f(v4 a, v4 b, f4 c) { v4 s = a + b; v4 t = __builtin_shufflevector(a, b, 0, 1, 4, 5); f4 d = c.xyzw + c.wzyx; v4 e = __builtin_convertvector(c, v4); v4 lit = (v4){1, 2, 3, 4}; return s[0] + t[1] + (int)d.x + e[2] + lit[3]; }\n",
+    "typeof_auto_type": "int f(int a) { typeof(a) b = a; __typeof__(a + 1.0) d = 2.5; __auto_type c = b + 1; typeof(int *) p = &b; return b + c + (int)d + *p; }\n",
+    "VarDecl_storage": "static int a; extern int b; int b = 1; int tent; int tent; _Thread_local int c; static _Thread_local int d; const int g = 3; volatile int j; _Alignas(16) int al; _Atomic int at; register int *rp __asm__(\"rsp\");\nint f(void) { static int s; static const int t = 1; register int r = 2; auto int au = 3; extern int b; return a + b + tent + c + d + g + j + al + at + s + t + r + au; }\n",
+    "FunctionDecl_kinds": "inline int a(void) { return 1; } static int b(void) { return 2; } extern int c(void); _Noreturn void die(void); int kr(); int kr2(a, b) int a; char b; { return a + b; } int pr(const char *, ...); static inline int si(void) { return 3; } int (*rfp(int x))(void) { return x ? a : b; } int arrp(int n, int v[n], int w[static 3], int m[const 2], int z[restrict]); void vp(void);\nint f(void) { return a() + b() + kr(1, 2) + kr2(1, 'c') + si() + rfp(1)(); }\n",
+    "RecordDecl_kinds": "struct A { int a; }; union U { int i; char c; }; struct E; struct E { struct E *n; }; struct N { struct In { int v; } in; union { int u1; char u2; }; struct { int an; }; enum { K = 3 } k; int bf : 3; unsigned : 0; int fl[]; }; typedef struct { int m; } T; struct P { char c; int i; } __attribute__((packed)); struct Al { char c; } __attribute__((aligned(8)));\nint f(struct N *n, T t) { struct In i = {1}; struct A a = {2}; union U u = {.c = 'c'}; struct E e = {0}; n->u1 = 1; n->an = 2; n->bf = 3; return i.v + a.a + u.i + (e.n == 0) + n->u2 + n->an + n->k + K + t.m + n->fl[0] + (int)sizeof(struct P) + (int)sizeof(struct Al); }\n",
+    "EnumDecl_kinds": "enum A { A0, A1 = 5, A2 }; enum { ANON = 9 }; typedef enum { T0, T1 } TE; enum Neg { N0 = -1, N1 = 1u << 31 }; enum Big { B0 = 1ull << 40 };\nint f(enum A a) { TE t = T1; enum A b = A1; int i = a; return a + b + ANON + t + N0 + (B0 != 0) + i + (a < A2) + sizeof(enum Big); }\n",
+    "TypedefDecl_kinds": "typedef int I; typedef I *IP; typedef int A3[3]; typedef int (*FP)(int); typedef int (S0)(int); typedef struct N { struct N *n; } N; typedef const volatile unsigned long CVUL; typedef I I;\nint f(I a, IP p, A3 v, FP fp, N *n, CVUL c) { S0 *s = fp; typedef char L; L l = 1; return a + *p + v[0] + fp(1) + s(2) + (n->n != 0) + (int)c + l; }\n",
+    "StaticAssertDecl": "_Static_assert(sizeof(int) >= 2, \"msg\"); struct S { int m; _Static_assert(sizeof(char) == 1, \"\"); };\nint f(void) { _Static_assert(1 + 1 == 2, \"\"); return 0; }\n",
+    "EmptyDecl_FileScopeAsm": ";\n__asm__(\"nop\");\n;;\nint f(void) { return 0; };\n",
+    "attributes_decl": "__attribute__((noreturn)) void die(void); __attribute__((deprecated(\"x\"))) int old(void); __attribute__((noinline)) int ni(void) { return 1; } __attribute__((always_inline)) inline int ai(void) { return 2; } __attribute__((format(printf, 1, 2))) int pf(const char *, ...); __attribute__((unused)) static int un; __attribute__((aligned(16))) int al; __attribute__((constructor)) static void ctor(void) {} __attribute__((weak)) int wk; __attribute__((visibility(\"hidden\"))) int hid; __attribute__((section(\"mysec\"))) int sec; __attribute__((pure)) int pu(int); __attribute__((const)) int co(int); __attribute__((malloc)) void *ma(unsigned long); __attribute__((nonnull(1))) int nn(int *p); __attribute__((warn_unused_result)) int wur(void); void cl(int *); enum __attribute__((packed)) PE { P0 }; typedef int ai4 __attribute__((aligned(4)));\nint f(int a) { __attribute__((unused)) int x = a; __attribute__((cleanup(cl))) int y = 1; if (a > 100) die(); switch (a) { case 1: a++; __attribute__((fallthrough)); case 2: a--; } return ni() + ai() + al + wk + hid + sec + pu(a) + co(a) + y; }\n",
+    "pragma_pack_alignas": "_Alignas(8) char buf[16];\n#pragma pack(push, 1)\nstruct P { char c; int i; };\n#pragma pack(pop)\nint f(void) { struct P p = {1, 2}; _Alignas(32) int loc = 0; return (int)sizeof(p) + buf[0] + loc + p.i + (int)_Alignof(struct P); }\n",
+    "pointer_kinds": "struct S { int m; }; int gf(int);\nint f(int a) { int *p = &a; int **pp = &p; const int *cp = p; int *const pc = p; const int *const cpc = p; void *v = p; const void *cv = cp; int (*fp)(int) = gf; int (**fpp)(int) = &fp; int (*afp[2])(int) = {gf, gf}; int (*pa)[2] = 0; char *s = v; int *n = 0; int *restrict rp = p; volatile int *vp = p; (void)pc; (void)cpc; (void)cv; (void)pa; (void)s; (void)n; (void)rp; return **pp + (*fpp)(1) + afp[1](2) + (p != 0) + (int)(p - p) + *(p + 0) + p[0] + *vp + !p; }\n",
+    "array_kinds": "int g(int n) { int a[3]; int b[] = {1, 2}; int c[2][3] = {{0}}; char s[] = \"ab\"; char t[5] = \"ab\"; const int d[2] = {1, 2}; static int e[4]; int *f[2] = {a, b}; int (*h)[3] = c; int v[n]; int w[n][2]; int (*vp)[n] = &v; a[0] = 1; v[0] = 2; w[0][1] = 3; return a[0] + b[1] + c[1][2] + s[0] + t[4] + d[1] + e[3] + *f[1] + (*h)[0] + h[1][1] + v[0] + w[0][1] + (*vp)[0] + (int)(sizeof(a) / sizeof(a[0])) + (int)sizeof(v); }\n",
+    "bitfield_union_kinds": "enum E { A, B }; struct S { int a : 1; unsigned b : 31; _Bool c : 1; enum E e : 2; long long d : 40; unsigned : 0; char f : 7; int : 3; signed g : 2; }; union U { int i; float f; char c[4]; struct { short lo, hi; } s; }; struct T { int tag; union { int i; double d; }; };\nint f(struct S s) { union U u = {.f = 1.5f}; struct T t = {0, {3}}; s.a = -1; s.b = 7u; s.c = 1; s.e = B; s.d = 1LL << 35; s.f = 'a'; s.g = 1; s.b++; s.b += 2; u.s.lo = 1; return s.a + s.b + s.c + s.e + (int)(s.d >> 35) + s.f + s.g + u.c[0] + t.i; }\n",
+    "goto_into_scopes": "int f(int a) { int r = 0; if (a > 5) goto big; { r = 1; goto done; }\nbig:\n  r = 2; { int k = a; r += k; }\ndone:\n  for (int i = 0; i < 2; i++) { if (i == a) goto out; } r++;\nout:\n  return r; }\n",
+    "implicit_int_and_decl": "static x; f2(a) { return a + x; }\nint f(void) { return undeclared(1) + f2(2); }\n",
+    "string_kinds": "char g1[] = \"ab\" \"cd\"; const char *g2 = \"x\\ty\\0z\"; char g3[3] = \"abc\"; const char g4[][3] = {\"ab\", \"cd\"}; unsigned char g5[] = {'a', 0x80, '\\377'};\nint f(void) { const char *p = \"lit\"; char l[8] = {0}; return g1[3] + g2[4] + g3[2] + g4[1][0] + g5[1] + p[0] + l[7] + *\"z\" + \"abc\"[1] + (int)sizeof(\"four\"); }\n",
+    "global_initialisers": "int g(void); int a = 1 + 2 * 3; int *pa = &a; int arr[] = {1, 2}; const char *names[] = {\"a\", \"b\"}; int (*fps[])(void) = {g, g}; struct S { int m; int *p; } s = {1, &a}, *ps = &s; int sz = sizeof(arr) / sizeof(arr[0]); double d = 1.5; long addr = (long)&a; char c = 'a' + 1; int neg = -1; unsigned un = ~0u;\nint f(void) { return a + *pa + arr[1] + names[1][0] + fps[0]() + ps->m + *s.p + sz + (int)d + (addr != 0) + c + neg + (int)un; }\n",
+}
